@@ -680,6 +680,24 @@ async def co_stored(v):
     return [r, log]
 
 
+def nonlocal_counter(n):
+    total = 0
+    cache = None
+
+    def add(x):
+        nonlocal total, cache
+        if cache is None:
+            cache = []
+        cache.append(x)
+        total += x
+        return total
+    return [[add(i) for i in range(n)], total, cache]
+
+
+def bit_lengths(v):
+    return [v.bit_length(), v.bit_length() > 32, (-v).bit_length(), (v + 1).bit_length() >= 33]
+
+
 CORO_CASES = [("co_chain", [[1, 2]]), ("co_chain", [[1, -1, 2]]), ("co_agen", [[1, 2]]), ("co_agen", [[]]), ("co_stored", [3])]
 
 CASES += [
@@ -691,4 +709,6 @@ CASES += [
     ("nested_funcs_defaults", [3]), ("dict_of_lists", [[["a", 1], ["b", 2], ["a", 3]]]),
     ("string_bytes", ["abc"]), ("string_bytes", ["z"]), ("int_parse", ["12"]), ("int_parse", ["x1"]), ("int_parse", ["-7"]),
     ("minmax", [[3, 1, 2], 2]), ("minmax", [[5], 9]),
+    ("nonlocal_counter", [3]), ("nonlocal_counter", [0]), ("bit_lengths", [0]), ("bit_lengths", [2 ** 32 - 1]), ("bit_lengths", [2 ** 32]),
+    ("bit_lengths", [-(2 ** 32) - 1]), ("bit_lengths", [255]),
 ]
